@@ -65,7 +65,10 @@ def run(tier, seed):
             if not fw.exn_refines(ml, il) or (ml.startswith("ERR Lib:") and ml != il):
                 chk.diverge(f"Model.parse_{kind}_cred_json", f"model {ml[:90]} impl {il[:90]} input {json.dumps(val)[:160]}", rp)
         chk.count(f"{kind}:" + ("OK" if il.startswith("OK") else il))
-        chk.seen((kind, json.dumps(val, sort_keys=True)[:300]))
+        try:
+            chk.seen((kind, json.dumps(val, sort_keys=True)[:300]))
+        except ValueError:
+            chk.seen((kind, repr(type(val)), len(repr(val)[:0]) or id(val) % 9973))
         return il
 
     def sig_of(val):
@@ -195,6 +198,42 @@ def run(tier, seed):
             want = "Y " + impl.wlist(fw.ws, keep)
             if il.startswith("OK") and not il.endswith(want + " N"):
                 chk.violation(f"a transports list of {len(lst)} entries is not kept exactly (recognised values, in order)", "reg-size-dependent transports", {"entry": "parse_registration_credential_json", "count": len(lst), "impl": il[-200:], "expected_tail": want[-200:]})
+    # 1g. numbers in every JSON spelling, as an ignored member and in place of each typed member - incl. integers longer than the interpreter
+    #     converts by default (json.loads raises a plain ValueError for those: still "refused with the library's exception")
+    NUMS = ["1" + "0" * 5000, "-" + "9" * 4301, "1" * 4300, "1E400", "-1E400", "1e-400", "-0", "-0.0", "1.0", "1E3", "0.1e1", "NaN", "Infinity", "-Infinity",
+            "123456789012345678901234567890", "[[" + "7" * 6000 + "]]", '{"n": ' + "3" * 4400 + "}", "1.5e+2", "9007199254740993"]
+    for kind, body in (("auth", '"response": {"clientDataJSON": "e30", "authenticatorData": "AAAA", "signature": "c2ln"%s}'), ("reg", '"response": {"clientDataJSON": "e30", "attestationObject": "o2NmbXQ"%s}')):
+        ref = one(kind, '{"id": "AQ", "rawId": "AQ", "type": "public-key", ' + (body % "") + "}")
+        for num in NUMS:
+            for where, t in (("ignored top-level member", '{"id": "AQ", "rawId": "AQ", "type": "public-key", "zz": ' + num + ", " + (body % "") + "}"),
+                             ("ignored response member", '{"id": "AQ", "rawId": "AQ", "type": "public-key", ' + (body % (', "zz": ' + num)) + "}"),
+                             ("clientExtensionResults", '{"id": "AQ", "rawId": "AQ", "type": "public-key", "clientExtensionResults": {"x": ' + num + "}, " + (body % "") + "}"),
+                             ("in place of id", '{"id": ' + num + ', "rawId": "AQ", "type": "public-key", ' + (body % "") + "}"),
+                             ("in place of response", '{"id": "AQ", "rawId": "AQ", "type": "public-key", "response": ' + num + "}"),
+                             ("the whole text", num)):
+                il = one(kind, t, model=True)
+                try:
+                    v = json.loads(t)
+                except ValueError:
+                    v = ValueError
+                if v is ValueError:
+                    if il != "ERR Lib:InvalidJSONStructure":
+                        chk.violation(f"credential text that json.loads refuses ({where}: a number written {num[:12]}...) is not refused with the structure exception: {il}", f"{kind}-number-spelling {where} {il}",
+                                      {"entry": f"parse_{kind}_credential_json", "text": t[:300] + ("..." if len(t) > 300 else ""), "text_length": len(t), "impl": il})
+                elif where.startswith(("ignored", "clientExtensionResults")) and il != ref:
+                    chk.violation(f"a number written {num[:16]} in an ignored member changed the parsed credential", f"{kind}-number-spelling-not-ignored {where}", {"entry": f"parse_{kind}_credential_json", "text": t[:300], "impl": il, "reference": ref})
+        # the dict form can hold such integers too (they are simply values of the wrong type, or ignored)
+        for big in (10 ** 5000, -10 ** 4400, [10 ** 5000], {"n": 10 ** 5000}):
+            for mem in ("id", "rawId", "type", "authenticatorAttachment", "zz"):
+                d = {"id": "AQ", "rawId": "AQ", "type": "public-key", "response": json.loads("{" + (body % "") + "}")["response"]}
+                d[mem] = big
+                il = impl.parse_auth_cred(d) if kind == "auth" else impl.parse_reg_cred(d)
+                chk.evals += 1
+                if not il.startswith("OK") and il not in LIB_OK:
+                    chk.violation(f"credential dict whose member {mem} holds a very long integer is refused with a non-library exception: {il}", f"{kind}-huge-integer {mem} {il}",
+                                  {"entry": f"parse_{kind}_credential_json", "member": mem, "value": "10**5000-like integer (or nested)", "impl": il})
+                if mem == "zz" and il != ref:
+                    chk.violation("a very long integer in an ignored member changed the parsed credential", f"{kind}-huge-integer-not-ignored", {"member": mem, "impl": il, "reference": ref})
     # 2. member-wise mutation stream, both parsers, both forms
     base_a = {"id": "AQ", "rawId": "AQ", "type": "public-key", "authenticatorAttachment": "platform",
               "response": {"clientDataJSON": "e30", "authenticatorData": "AAAA", "signature": "c2ln", "userHandle": "dWg"}}
@@ -242,6 +281,15 @@ def run(tier, seed):
         rp = {"entry": "parse_client_data_json", "input_hex": b.hex(), "impl": il}
         if expect is not None and il != "OK " + expect:
             chk.violation("client data not decoded to exactly type/challenge/origin", "clientdata-unfaithful", dict(rp, expected=expect))
+        try:
+            json.loads(b)
+            refuses = False
+        except ValueError:
+            refuses = True
+        except Exception:
+            refuses = None
+        if refuses and il != "ERR Lib:InvalidJSONStructure":
+            chk.violation(f"client data bytes that json.loads refuses are not refused with the structure exception: {il}", f"clientdata-undecodable {il}", rp)
         if R:
             ml = R.call("clientdata " + fw.wb(b))
             if not fw.exn_refines(ml, il) or (ml.startswith("ERR Lib:") and ml != il):
@@ -270,7 +318,11 @@ def run(tier, seed):
                                {"type": "t", "challenge": "A", "origin": "o"}, {"type": "t", "origin": "o"}, {"challenge": "", "origin": "o"},
                                {"type": "t", "challenge": "", "origin": "o", "tokenBinding": {}}]:
         cd(json.dumps(v).encode())
-    for b in [b"", b"{", b"\xff\xfe", b"\xef\xbb\xbf{}", b'{"type":"a","challenge":"AA","origin":"\xff"}', "{}".encode("utf-16")]:
+    for num in ("1" + "0" * 5000, "-" + "9" * 4301, "1E400", "NaN", "-0", "1.0", "[" + "7" * 6000 + "]"):
+        cd(('{"type": "t", "challenge": "AA", "origin": "o", "zz": ' + num + "}").encode(), None)
+        cd(('{"type": "t", "challenge": ' + num + ', "origin": "o"}').encode(), None)
+        cd(num.encode(), None)
+    for b in [b"", b"{", b"\xff\xfe", b"\xef\xbb\xbf{}", b"\xef\xbb\xbf\xbb{}", b'{"type": "\xe9"}', b"\x00", b'{"a": "\xed\xa0\x80"}', b'{"type":"a","challenge":"AA","origin":"\xff"}', "{}".encode("utf-16")]:
         cd(b)
     chk.sample({"client_data": '{"type":"t","challenge":123,"origin":"o"}', "impl": impl.parse_client_data(b'{"type":"t","challenge":123,"origin":"o"}')})
     if R:
